@@ -251,6 +251,24 @@ def run(res, f, tier):
         ob(w is None, "C08|ws-in-token|%s" % names.get(i, i), "token %s can contain whitespace (%r): layout would change the token sequence" % (names.get(i), w))
         w = lexre.intersects(lx.asts[i], starts_comment)
         ob(w is None, "C08|comment-in-token|%s" % names.get(i, i), "token %s can start with // (%r)" % (names.get(i), w))
+    # ---- 5. the text the lexer sees is the caller's text: Expr::parse / Rule::parse hand their argument unchanged to the
+    # generated parser (a pre-pass that drops or rewrites lines would change literals that span lines)
+    for owner in ("expr::Expr", "ruleset::rule::Rule"):
+        ep = evalsum.find_by_name(f, "parse", owner)
+        if len(ep) != 1:
+            raise Inconclusive("%s::parse not found" % owner)
+        gen = lambda p_: p_.startswith("parse::reval::") and p_.endswith("Parser::parse")
+        it5 = Interp(f, opaque=gen, loop_bound=1, max_paths=20000)
+        texts = set()
+        ncalls = []
+        for s5, rv5 in it5.run(ep[0], [("sym", "input")], State()):
+            cs5 = [e for e in s5.events if e[0] == "call" and e[1] in f.bodies and gen(e[1])]
+            ncalls.append(len(cs5))
+            for e in cs5:
+                texts.add(show(norm(e[2][-1])))
+        short_owner = owner.split("::")[-1]
+        ob(texts == {"input"} and ncalls and set(ncalls) == {1}, "C08|parser-input|%s::parse" % short_owner,
+           "%s::parse must hand its text unchanged, once, to the generated parser (found %s, calls per path %s)" % (short_owner, sorted(texts), sorted(set(ncalls))))
     res.coverage = {
         "explanation": "%d lexer patterns (%d keywords) and the 7 literal helpers + unescape/parse_unicode: wiring and summaries, fixed prefixes, promised spellings inside the "
                        "token languages, token bodies inside the conversions' syntax, %d overlapping pattern pairs with their winners, keyword-prefix words, skip patterns "
